@@ -512,7 +512,7 @@ func TestC15(t *testing.T) {
 	}, c15Check)
 
 	// (3) counter wrap (hook): the 32-bit plan counter placed just below the boundary
-	runProp(t, rec, "wrap", perShard(evid.Pick(200, 5000)), func(rt *rapid.T) c15Case {
+	runProp(t, rec, "wrap", perShard(evid.Pick(200, 20000)), func(rt *rapid.T) c15Case {
 		nhh := rapid.SampledFrom([]int{2, 3, 4, 5}).Draw(rt, "hosts")
 		var boot []int
 		for i := 0; i < nhh; i++ {
@@ -525,7 +525,7 @@ func TestC15(t *testing.T) {
 	}, c15Check)
 
 	// (4) concurrent
-	runProp(t, rec, "concurrent", perShard(evid.Pick(150, 6000)), func(rt *rapid.T) c15Conc {
+	runProp(t, rec, "concurrent", perShard(evid.Pick(150, 20000)), func(rt *rapid.T) c15Conc {
 		c := c15Conc{Hosts: rapid.IntRange(2, 5).Draw(rt, "hosts"), Workers: rapid.IntRange(2, 8).Draw(rt, "workers"),
 			Events: rapid.SliceOfN(rapid.IntRange(0, 4), 1, 40).Draw(rt, "events"), PerW: rapid.IntRange(50, 400).Draw(rt, "perw")}
 		rec.Case("conc:"+js(c), "concurrent")
